@@ -22,6 +22,7 @@ import WowVerif.Model.Wireshark
 import WowVerif.Model.Example
 import WowVerif.Thm.C17c
 import Std.Data.HashMap
+import WowVerif.Model.SizeFn
 namespace WowVerif.Driver
 
 def fnvStep (h : UInt64) (x : UInt64) : UInt64 := (h ^^^ x) * 0x100000001b3
@@ -524,6 +525,36 @@ def showErr : Sem.Err → String
   | .unboundVar i => s!"err unbound {i}"
   | .trailing n => s!"err trailing {n}"
 
+/-! ### size functions (Model/SizeFn.lean): token reader / printer -/
+namespace SzParse
+open Sem
+mutual
+partial def term : List String → Option (SzT × List String)
+  | "c" :: n :: r => n.toNat?.map fun n => (.const n, r)
+  | "lp" :: k :: r => k.toNat?.map fun k => (.lenPlus k, r)
+  | "pg" :: r => some (.pg, r)
+  | "pr" :: n :: r => some (.prim n, r)
+  | "lt" :: k :: r => k.toNat?.map fun k => (.lenTimes k, r)
+  | "call" :: r => (terms r).map fun (ts, r) => (.call ts, r)
+  | "fold" :: r => (term r).map fun (t, r) => (.fold t, r)
+  | "other" :: r => some (.other, r)
+  | _ => none
+partial def terms : List String → Option (SzTs × List String)
+  | "end" :: r => some (.nil, r)
+  | ts => match term ts with
+      | some (t, r) => (terms r).map fun (ts, r) => (.cons t ts, r)
+      | none => none
+end
+mutual
+partial def showT : SzT → String
+  | .const n => s!"c {n}" | .lenPlus k => s!"lp {k}" | .pg => "pg" | .prim n => s!"pr {n}" | .lenTimes k => s!"lt {k}"
+  | .call ts => s!"call {showTs ts}end" | .fold t => s!"fold {showT t}" | .other => "other"
+partial def showTs : SzTs → String
+  | .nil => ""
+  | .cons t ts => s!"{showT t} {showTs ts}"
+end
+end SzParse
+
 def loadLine (st : DState) (line : String) : DState :=
   match (line.trimAscii.toString.splitOn " ").filter (· ≠ "") with
   | "container" :: key :: op :: toks =>
@@ -626,6 +657,15 @@ def semHandle (st : DState) (ws : List String) : Option String :=
       | .splines => "splines"
       | .updateMask => "updatemask"
       | .other => "other")
+  | "sizeeq" :: key :: toks =>
+    -- C07 / C01 (code side): is the term list translated from the generated Rust `size()` the one the definition prescribes?
+    -- (Model/SizeFn.lean `sizeMatches`, Thm/C07b.lean `size_matches_sound`)
+    match st.corpus.get? key, SzParse.terms (toks ++ ["end"]) with
+    | some (_, c), some (ts, []) =>
+      if Sem.sizeMatches c ts then some s!"same wf={if Sem.wfMs c then 1 else 0} supported={if Sem.supportedS ts then 1 else 0}"
+      else some s!"differ supported={if Sem.supportedS (Sem.szMs c) then 1 else 0} expected={SzParse.showTs (Sem.szMs c)}"
+    | none, _ => some "nokey"
+    | _, _ => some "bad-terms"
   | ["progeq", kind, specKey, rustKey] =>
     -- C01 / C03 / C04 (code side): is the program translated from the generated Rust writer (`w`) / reader (`r`) the per-enumerator
     -- normal form of the program translated from the wowm definition (for readers: with the roles erased)?
